@@ -148,7 +148,10 @@ def conv_case():
       'k_dil': st.lists(st.integers(1, 2), min_size=nd, max_size=nd),
       'in_dil': st.lists(st.integers(1, 2), min_size=nd, max_size=nd),
       'padding': st.sampled_from(['SAME', 'VALID', 'CIRCULAR', 'REFLECT',
-                                  'CAUSAL', 'int', 'pairs']),
+                                  'CAUSAL', 'int', 'pairs', 'ints', 'mixed']),
+      # how sequence-valued hyper-parameters are spelled: as an int when
+      # uniform, None when all ones, a list instead of a tuple
+      'spell': st.integers(0, 31),
       'pad_vals': st.lists(st.tuples(st.integers(0, 2), st.integers(0, 2)),
                            min_size=nd, max_size=nd),
       'groups': st.sampled_from([1, 1, 2]), 'cin_mult': st.integers(1, 2),
@@ -161,7 +164,9 @@ def conv_case():
         quick_shards=10, thorough_shards=16, x64=True, shrink=False,
         rule='Conv of rank 1-3: kernel 1-3, stride 1-3, kernel dilation 1-2, '
         'input dilation 1-2, feature_group_count 1/2, kernel mask, padding '
-        'SAME/VALID/CIRCULAR/REFLECT/CAUSAL(1-D)/int/explicit pairs, no/one/'
+        'SAME/VALID/CIRCULAR/REFLECT/CAUSAL(1-D)/int/one int per dim/explicit '
+        'pairs/mixed, strides and dilations spelled as tuple, list, int or '
+        'None, kernel_size as int for rank 1, no/one/'
         'two batch dims, use_bias: output equals a direct nested-loop sum over '
         'output positions x kernel taps x grouped channels on an explicitly '
         'padded/dilated float64 input; non-trivial = >=2 non-default hyper-'
@@ -193,13 +198,19 @@ def conv(case, ctx):
     padding = case['pad_vals'][0][0]
   elif pad == 'pairs':
     padding = [tuple(p) for p in case['pad_vals']]
+  elif pad == 'ints':
+    # one int per dimension: the same padding on both sides
+    padding = [p[0] for p in case['pad_vals']]
+  elif pad == 'mixed':
+    padding = [p[0] if i % 2 == 0 else tuple(p)
+               for i, p in enumerate(case['pad_vals'])]
   else:
     padding = pad
   # output must be non-empty
   k_eff = [(k - 1) * d + 1 for k, d in zip(case['kernel'], case['k_dil'])]
-  if pad in ('VALID', 'int', 'pairs'):
-    lo_hi = {'VALID': [(0, 0)] * nd, 'int': [(padding, padding)] * nd if
-             pad == 'int' else None, 'pairs': padding}[pad]
+  if pad in ('VALID', 'int', 'pairs', 'ints', 'mixed'):
+    lo_hi = [(0, 0)] * nd if pad == 'VALID' else R.resolve_padding(
+        padding, spatial, case['kernel'], strides, case['k_dil'])[1]
     spatial = [max(s, -(-(k - lo - hi - 1) // d) + 1) if (
         (s - 1) * d + 1 + lo + hi) < k else s
                for s, k, d, (lo, hi) in zip(spatial, k_eff, in_dil, lo_hi)]
@@ -210,11 +221,22 @@ def conv(case, ctx):
   kshape = tuple(case['kernel']) + (cin // g, fout)
   mask = (rng.integers(0, 2, size=kshape)).astype(np.float64) if case['mask'] \
       else None
-  m = f64(nn.Conv, fout, tuple(case['kernel']), strides=tuple(strides),
-          padding=padding, input_dilation=tuple(in_dil),
-          kernel_dilation=tuple(case['k_dil']), feature_group_count=g,
+  sp = case.get('spell', 0)
+  def spelled(seq, bit_int, bit_none, bit_list):
+    seq = list(seq)
+    if sp & bit_none and all(v == 1 for v in seq):
+      return None
+    if sp & bit_int and len(set(seq)) == 1:
+      return seq[0]
+    return seq if sp & bit_list else tuple(seq)
+  ksz = case['kernel'][0] if (nd == 1 and sp & 16) else (
+      list(case['kernel']) if sp & 8 else tuple(case['kernel']))
+  hyper = dict(strides=spelled(strides, 1, 2, 8),
+               input_dilation=spelled(in_dil, 4, 2, 8),
+               kernel_dilation=spelled(case['k_dil'], 4, 2, 8))
+  m = f64(nn.Conv, fout, ksz, padding=padding, feature_group_count=g,
           use_bias=case['use_bias'],
-          mask=None if mask is None else jnp.asarray(mask))
+          mask=None if mask is None else jnp.asarray(mask), **hyper)
   with sut('Conv'):
     v = unfreeze(m.init(KEY(0), jnp.asarray(x)))
     v = {'params': randomize(v['params'], rng)}
@@ -229,7 +251,8 @@ def conv(case, ctx):
   ref = ref.reshape(bshape + ref.shape[1:])
   require(close(y, ref), lambda: f'Conv(kernel={case["kernel"]}, strides='
           f'{strides}, padding={padding}, in_dil={in_dil}, k_dil='
-          f'{case["k_dil"]}, groups={g}, mask={case["mask"]}) on input '
+          f'{case["k_dil"]}, groups={g}, mask={case["mask"]}; spelled '
+          f'kernel_size={ksz}, {hyper}) on input '
           f'{x.shape}: output {np.asarray(y).shape} differs from the direct '
           f'sum {ref.shape}; max |diff| = '
           f'{np.max(np.abs(np.asarray(y) - ref)) if np.asarray(y).shape == ref.shape else "shape"}')
@@ -569,15 +592,16 @@ def normalization(case, ctx):
         strategy=lambda: st.fixed_dictionaries({
             'rate': st.sampled_from([0.0, 0.1, 0.5, 0.9, 1.0]),
             'deterministic': st.booleans(),
-            'bdims': st.sampled_from([(), (0,), (1,)]),
+            'bdims': st.sampled_from([(), (0,), (1,), (-1,), (-2,), [0],
+                                      (0, -1)]),
             'seed': st.integers(0, 2**16), 'api': st.sampled_from(
                 ['linen', 'nnx'])}),
         quick=200, thorough=6000, quick_shards=4, shrink=False,
         rule='Dropout (Linen and NNX): identity when deterministic or rate 0, '
         'zeros at rate 1, otherwise every element is 0 or x/(1-rate); the zero '
         'pattern is the same for two different inputs under one key and '
-        'differs between keys; broadcast_dims make the mask constant along '
-        'those dims; keep frequency within 6 sigma over 4096+ elements; non-'
+        'differs between keys; broadcast_dims (positive or negative, tuple '
+        'or list) make the mask constant along those dims; keep frequency within 6 sigma over 4096+ elements; non-'
         'trivial = 0 < rate < 1 and not deterministic')
 def dropout(case, ctx):
   rate, det, bdims = case['rate'], case['deterministic'], case['bdims']
@@ -608,13 +632,18 @@ def dropout(case, ctx):
             'surviving elements are not scaled by 1/(1-rate)')
     require(np.array_equal(z1, z2), 'the mask depends on the data (same key, '
             'different inputs give different zero patterns)')
-    require(not np.array_equal(z1, z3), 'different keys give the same mask')
+    pos = sorted({bd % 2 for bd in bdims})
+    if len(pos) < 2:
+      require(not np.array_equal(z1, z3), 'different keys give the same mask')
     for bd in bdims:
       require((z1 == np.take(z1, [0], axis=bd)).all(), lambda: f'mask is not '
               f'constant along broadcast dim {bd}')
-    n = z1.size if not bdims else z1.shape[1 - bdims[0]]
-    keep = 1.0 - (z1.mean() if not bdims else np.take(z1, 0, axis=bdims[0]
-                                                      ).mean())
+    if len(pos) == 2:
+      ctx.note(labels=['all-dims-broadcast'])
+      return
+    n = z1.size if not pos else z1.shape[1 - pos[0]]
+    keep = 1.0 - (z1.mean() if not pos else np.take(z1, 0, axis=pos[0]
+                                                    ).mean())
     sigma = np.sqrt(rate * (1 - rate) / n)
     require(abs(keep - (1 - rate)) <= 6 * sigma + 1e-9, lambda: f'keep '
             f'frequency {keep} outside 6 sigma of {1 - rate} (n={n})')
